@@ -180,6 +180,25 @@ func genC15(r *Rng, tier string) *c15W {
 	saveV, saveE := gen.VLabels, gen.ELabels
 	gen.VLabels, gen.ELabels = []string{"A", "B", "Z"}, []string{"k", "l", "m"}
 	p := gen.Program(r, g, gen.ProgOpts{MaxLen: 6, Oracle: true, IndexBias: r.Chance(50), NoNull: !r.Chance(30)})
+	dangling := false
+	vs := map[string]bool{}
+	for _, v := range g.V {
+		vs[v.ID] = true
+	}
+	for _, e := range g.E {
+		if !vs[e.From] || !vs[e.To] {
+			dangling = true
+		}
+	}
+	if r.Chance(12) && !dangling {
+		// a mark/jump loop over the mapped graph: the loop's end-of-round signals
+		// travel through the same lookup stages as the rows (judged by refjump).
+		// Only over tables whose links all resolve: a lookup of a missing row gets
+		// no answer (recorded finding), and a loop signal queued behind it never
+		// returns - the loop then hangs with a single missing row, which costs
+		// tens of millions of steps per case to establish and says nothing new
+		p, _ = gen.LoopProgram(r, g)
+	}
 	gen.VLabels, gen.ELabels = saveV, saveE
 	w.Prog = gen.StmtsJSON(p)
 	return w
@@ -239,12 +258,28 @@ func execC15(w *c15W, x *Exec) *Outcome {
 	if w.Run.CapDiv > 1 {
 		o.Count("fault:buffer_scaling", 1)
 	}
-	if gen.TypeCheckExt(stmts) != gen.WellTyped {
+	isLoop := false
+	for _, st := range stmts {
+		switch st.Statement.(type) {
+		case *gripql.GraphStatement_Mark, *gripql.GraphStatement_Jump:
+			isLoop = true
+		}
+	}
+	if !isLoop && gen.TypeCheckExt(stmts) != gen.WellTyped {
 		o.Count("program_outside_model", 1)
 		return o
 	}
 	gd := w.materialise()
-	spec, _ := model.Eval(model.FromData(gd), stmts)
+	var spec model.Spec
+	if isLoop {
+		o.Count("program_with_mark_jump_loop", 1)
+		spec, _ = model.EvalLoop(model.FromData(gd), stmts, 200000)
+		if spec.Err == "" && len(spec.Rows) > 3000 {
+			spec.Err = "loop result too large"
+		}
+	} else {
+		spec, _ = model.Eval(model.FromData(gd), stmts)
+	}
 	if spec.Err != "" {
 		o.Inconclusive = "reference: " + spec.Err
 		return o
